@@ -164,45 +164,62 @@ def executeBody (g : Gen) (ns : List Str) (order : List Nat) : List Ev × Str ×
 
 def findFile (files : List File) (name : Str) : Option File := files.find? (fun f => f.name = name)
 
-def putFile (files : List File) (f : File) : List File :=
-  if files.any (fun x => x.name = f.name) then files.map (fun x => if x.name = f.name then f else x)
-  else files ++ [f]
+/-- `files[f.Name] = f` -/
+def putFile : List File → File → List File
+  | [], f => [f]
+  | x :: xs, f => if x.name = f.name then f :: xs else x :: putFile xs f
 
 def addImports (cur : List Str) (is : List Str) : List Str :=
   is.foldl (fun acc i => if acc.contains i then acc else acc ++ [i]) cur
+
+/-- empty file type, or a file of that name was already started with another type -/
+def fileTypeError (files : List File) (g : Gen) : Bool :=
+  g.fileType.isEmpty ||
+    (match findFile files g.filename with
+     | some f => f.fileType != g.fileType
+     | none => false)
+
+/-- the `File` a generator contributes to: the one already started under that name, or a new one -/
+def startFile (tgt : Target) (files : List File) (g : Gen) : File :=
+  (findFile files g.filename).getD ⟨g.filename, g.fileType, tgt.name, tgt.header, [], [], [], []⟩
+
+/-- what a generator adds to its file: vars and consts blocks (with their header comments), the body
+bytes of `executeBody`, and its imports -/
+def contribute (f : File) (g : Gen) (body : Str) : File :=
+  { f with
+    vars := if g.vars.isEmpty then f.vars else
+      appendLines (addHeaderComment f.vars "Package-wide variables".toList g.name) g.vars
+    consts := if g.consts.isEmpty then f.consts else
+      appendLines (addHeaderComment f.consts "Package-wide consts".toList g.name) g.consts
+    body := f.body ++ body
+    imports := addImports f.imports g.imports }
+
+/-- the namer names a generator's hooks see: the base systems extended by its own -/
+def genNamers (c : Ctx) (g : Gen) : List Str := sortedKeys (addNamers c.namers g.namers)
+
+/-- the types offered to a generator: the target-filtered order filtered by its own filter -/
+def genOrder (pkgOrder : List Nat) (g : Gen) : List Nat := pkgOrder.filter (fun t => g.accept.contains t)
+
+/-- events up to and including `Namers` -/
+def evStart (c : Ctx) (pkgOrder : List Nat) (g : Gen) : List Ev :=
+  pkgOrder.map (fun t => Ev.gFilter g.name t) ++ [Ev.hook .namers g.name (sortedKeys c.namers) (genOrder pkgOrder g)]
+
+def evVarsConsts (c : Ctx) (pkgOrder : List Nat) (g : Gen) : List Ev :=
+  [Ev.hook .vars g.name (genNamers c g) (genOrder pkgOrder g), Ev.hook .consts g.name (genNamers c g) (genOrder pkgOrder g)]
 
 /-- the generator loop of `ExecuteTarget`; `inl` = early error return -/
 def runGens (c : Ctx) (tgt : Target) (pkgOrder : List Nat) :
     List Gen → List File → List Ev × (TRes ⊕ List File)
   | [], files => ([], .inr files)
   | g :: gs, files =>
-    let genOrder := pkgOrder.filter (fun t => g.accept.contains t)
-    let evFilter := pkgOrder.map (fun t => Ev.gFilter g.name t)
-    let base := sortedKeys c.namers
-    let ns := sortedKeys (addNamers c.namers g.namers)
-    let evN := [Ev.hook .namers g.name base genOrder]
-    if g.fileType.isEmpty then (evFilter ++ evN, .inl .errFileType)
+    if fileTypeError files g then (evStart c pkgOrder g, .inl .errFileType)
     else
-      let existing := findFile files g.filename
-      let conflict := match existing with
-        | some f => f.fileType != g.fileType
-        | none => false
-      if conflict then (evFilter ++ evN, .inl .errFileType)
+      let b := executeBody g (genNamers c g) (genOrder pkgOrder g)
+      if b.2.2 then (evStart c pkgOrder g ++ evVarsConsts c pkgOrder g ++ b.1, .inl .errHook)
       else
-        let f : File := match existing with
-          | some f => f
-          | none => ⟨g.filename, g.fileType, tgt.name, tgt.header, [], [], [], []⟩
-        let f := if g.vars.isEmpty then f else
-          { f with vars := appendLines (addHeaderComment f.vars "Package-wide variables".toList g.name) g.vars }
-        let f := if g.consts.isEmpty then f else
-          { f with consts := appendLines (addHeaderComment f.consts "Package-wide consts".toList g.name) g.consts }
-        let evVC := [Ev.hook .vars g.name ns genOrder, Ev.hook .consts g.name ns genOrder]
-        let b := executeBody g ns genOrder
-        if b.2.2 then (evFilter ++ evN ++ evVC ++ b.1, .inl .errHook)
-        else
-          let f := { f with body := f.body ++ b.2.1, imports := addImports f.imports g.imports }
-          let r := runGens c tgt pkgOrder gs (putFile files f)
-          (evFilter ++ evN ++ evVC ++ b.1 ++ [Ev.hook .imports g.name ns genOrder] ++ r.1, r.2)
+        let r := runGens c tgt pkgOrder gs (putFile files (contribute (startFile tgt files g) g b.2.1))
+        (evStart c pkgOrder g ++ evVarsConsts c pkgOrder g ++ b.1 ++
+          [Ev.hook .imports g.name (genNamers c g) (genOrder pkgOrder g)] ++ r.1, r.2)
 
 /-- `AssembleFile` -/
 def assembleFile (format : Str → Option Str) (d : Disk) (f : File) (path : Str) : Disk × Bool :=
